@@ -52,7 +52,7 @@ META = {
          "All plaintext lengths 0..80 and block-boundary triples up to 64 KiB x patterns x kinds x keys are round-tripped and compared byte-for-byte with an independent HKDF/AES-CBC/HMAC implementation; every byte position x masks and every truncation must be rejected.",
          "`cryptography` primitives trusted; keys from a fixed set.", "3/C15"),
  "C16": ("model_checking", "explicit-state BFS over connection-event histories on the real full stack with a lifecycle monitor automaton",
-         "All event histories up to a depth over the lifecycle alphabet are executed on the real default stack (network..interface) with dispatcher and Noise doubles; a reference automaton checks alternation, no-write-while-down, reconnect and keep-alive rules in every state; the dispatcher double's callback discipline is checked on the real asyncore dispatcher over loopback for all scripts up to depth 2 / 3.",
+         "All event histories up to a depth over the lifecycle alphabet are executed on the real default stack (network..interface) with dispatcher and Noise doubles; a reference automaton checks alternation, no-write-while-down, reconnect and keep-alive rules in every state; the dispatcher double's callback discipline is checked on the real asyncore dispatcher over loopback for all scripts up to depth 2 / 3; an interleaving part runs an application-thread disconnect against the loop thread (deferred announcement, reconnect, fresh login) under the controlled scheduler at preemption bound 1 / 2.",
          "Dispatcher double conformance-checked against the real dispatcher classes.", "3/C16"),
  "C17": ("model_checking", "exhaustive enumeration of publish/reinstall/send/restart histories on real stacks",
          "All histories up to a length for 2-3 accounts with autotrust on/off run on real stacks against the server double; pin invariants evaluated after every event.",
